@@ -333,73 +333,73 @@ def run_shard(params, rec):
 
         def do_resolve(guest, comps, fs, fsname, as_bytes, follow):
             arg = guest.encode() if as_bytes else guest
-        fn = "resolve_path"
-        rec.ev()
-        rec.count("fn:resolve_path")
-        rec.count("resolve_path:%s" % ("bytes" if as_bytes else "str"))
-        rec.count("resolve_path:follow_link=%s" % follow)
-        rec.count("resolve_path:fs=%s" % fsname)
-        if nontrivial(comps):
-            rec.distinct("rp/%d/%s/%s" % (k, guest, follow))
-        try:
-            res = fs.resolve_path(arg, follow_link=follow)
-        except AssertionError:
-            rec.count("resolve_path:refused(assert)")
-            return
-        except RecursionError:
-            rec.count("resolve_path:recursion_on_loop")
-            if k not in (5, 6):
-                rec.fail("resolve_path: RecursionError without a link loop", guest,
-                         dict(layout=k, guest=guest))
-            return
-        except Exception as exc:
-            rec.fail("resolve_path raises %s" % type(exc).__name__, "%r: %r" % (guest, exc),
-                     dict(layout=k, guest=guest, bytes=as_bytes, follow_link=follow))
-            return
-        if isinstance(res, bytes) != as_bytes:
-            rec.count("resolve_path:result_type_differs_from_argument")
-        host = to_text(res)
-        if fs is fs_pass and pass_match(guest):
-            rec.count("resolve_path:passthrough_matched")
-            if host == os.path.normpath(guest):
-                rec.count("resolve_path:passthrough_returned_as_is")
-            return
-        host_abs = host if os.path.isabs(host) else os.path.join(os.getcwd(), host)
-        status, real, why = orc.walk(host_abs, follow)
-        if follow and status != "dead" and os.path.exists(host_abs):
-            # harness sanity: the walk and the C library agree where an existing path leads
-            assert os.path.realpath(host_abs) == real, (host_abs, real)
-        if status == "dead":
-            rec.count("resolve_path:dead_path(kernel would refuse)")
-            return
-        if status == "inside":
-            rec.count("resolve_path:inside")
-            if os.path.lexists(host):
-                rec.count("resolve_path:inside_and_exists")
-            if real != os.path.normpath(host_abs):
-                rec.count("resolve_path:inside_through_link")
-            if rec.evaluations % 997 == 0:
-                rec.sample(dict(fn=fn, layout=k, guest=guest, host=host.replace(top, "<top>"),
-                                real=real.replace(top, "<top>")))
-            return
-        # ---- escape: classify the mechanism
-        gnorm = os.path.normpath(guest)
-        lead = gnorm == ".." or gnorm.startswith("../")
-        final_link = os.path.islink(os.path.join(base, gnorm.lstrip("/")))
-        if not follow and final_link and why == orc.T:
-            key = ("resolve_path(follow_link=False): a final symbolic link yields its guest target, "
-                   "not a host path in the sandbox")
-        elif why in (orc.D, orc.DL) and lead:
-            key = "resolve_path: leading '..' of a relative guest path survives normpath"
-        elif why in (orc.D, orc.DL) and follow and final_link:
-            key = "resolve_path: relative target of a final symbolic link climbs above the base"
-        else:
-            key = "resolve_path: " + why
-        rec.count("resolve_path:escape")
-        rec.fail(key, "guest %r -> host %r -> real %r (base %r)" % (guest, host, real, orc.base_real),
-                 dict(layout=k, guest=guest, bytes=as_bytes, follow_link=follow, fs=fsname,
-                      host=host.replace(top, "<top>"), real=real.replace(top, "<top>"),
-                      readable=os.path.isfile(real)))
+            fn = "resolve_path"
+            rec.ev()
+            rec.count("fn:resolve_path")
+            rec.count("resolve_path:%s" % ("bytes" if as_bytes else "str"))
+            rec.count("resolve_path:follow_link=%s" % follow)
+            rec.count("resolve_path:fs=%s" % fsname)
+            if nontrivial(comps):
+                rec.distinct("rp/%d/%s/%s" % (k, guest, follow))
+            try:
+                res = fs.resolve_path(arg, follow_link=follow)
+            except AssertionError:
+                rec.count("resolve_path:refused(assert)")
+                return
+            except RecursionError:
+                rec.count("resolve_path:recursion_on_loop")
+                if k not in (5, 6):
+                    rec.fail("resolve_path: RecursionError without a link loop", guest,
+                             dict(layout=k, guest=guest))
+                return
+            except Exception as exc:
+                rec.fail("resolve_path raises %s" % type(exc).__name__, "%r: %r" % (guest, exc),
+                         dict(layout=k, guest=guest, bytes=as_bytes, follow_link=follow))
+                return
+            if isinstance(res, bytes) != as_bytes:
+                rec.count("resolve_path:result_type_differs_from_argument")
+            host = to_text(res)
+            if fs is fs_pass and pass_match(guest):
+                rec.count("resolve_path:passthrough_matched")
+                if host == os.path.normpath(guest):
+                    rec.count("resolve_path:passthrough_returned_as_is")
+                return
+            host_abs = host if os.path.isabs(host) else os.path.join(os.getcwd(), host)
+            status, real, why = orc.walk(host_abs, follow)
+            if follow and status != "dead" and os.path.exists(host_abs):
+                # harness sanity: the walk and the C library agree where an existing path leads
+                assert os.path.realpath(host_abs) == real, (host_abs, real)
+            if status == "dead":
+                rec.count("resolve_path:dead_path(kernel would refuse)")
+                return
+            if status == "inside":
+                rec.count("resolve_path:inside")
+                if os.path.lexists(host):
+                    rec.count("resolve_path:inside_and_exists")
+                if real != os.path.normpath(host_abs):
+                    rec.count("resolve_path:inside_through_link")
+                if rec.evaluations % 997 == 0:
+                    rec.sample(dict(fn=fn, layout=k, guest=guest, host=host.replace(top, "<top>"),
+                                    real=real.replace(top, "<top>")))
+                return
+            # ---- escape: classify the mechanism
+            gnorm = os.path.normpath(guest)
+            lead = gnorm == ".." or gnorm.startswith("../")
+            final_link = os.path.islink(os.path.join(base, gnorm.lstrip("/")))
+            if not follow and final_link and why == orc.T:
+                key = ("resolve_path(follow_link=False): a final symbolic link yields its guest target, "
+                       "not a host path in the sandbox")
+            elif why in (orc.D, orc.DL) and lead:
+                key = "resolve_path: leading '..' of a relative guest path survives normpath"
+            elif why in (orc.D, orc.DL) and follow and final_link:
+                key = "resolve_path: relative target of a final symbolic link climbs above the base"
+            else:
+                key = "resolve_path: " + why
+            rec.count("resolve_path:escape")
+            rec.fail(key, "guest %r -> host %r -> real %r (base %r)" % (guest, host, real, orc.base_real),
+                     dict(layout=k, guest=guest, bytes=as_bytes, follow_link=follow, fs=fsname,
+                          host=host.replace(top, "<top>"), real=real.replace(top, "<top>"),
+                          readable=os.path.isfile(real)))
 
         for i in range(n):
             which = rng.random()
@@ -419,7 +419,7 @@ def run_shard(params, rec):
         for cname, length, tail in chains:
             for start in range(length):
                 remaining = length - start
-                for rep in range(2 if tier_quick else 6):
+                for rep in range(4 if tier_quick else 8):
                     lead = rng.choice(["/", "", "//", "./", "/a/../", "/ch/../"])
                     trail = rng.choice(["", "", "/", "/."])
                     guest = "%s%s_%d%s" % (lead, cname, start, trail)
